@@ -61,6 +61,14 @@ CLAIMED = {
             "part zero-mean over the grid, reads draws disjoint from the high-frequency ones for Generator / integer / None seeds, whole screen ~ "
             "r0^(-5/6); N = 2 quick, N = 4 thorough. NOT claimed: convergence to the analytic structure function, 'closer at large separations'",
             "exp and the 11/6 power are uninterpreted positive functions keyed by their canonical argument; odd N outside."),
+    "C08": ("3 C08", "algebraic part only, on every path of the functions with r, r0, L0 symbolic: the slope-covariance and Karhunen-Loeve copies of the von "
+            "Karman structure function are the same function; phase_covariance and structure_function_vk equal their published formulas (to 1e-9), "
+            "phase_covariance(0) equals the zero-separation variance (under the assumed small-argument limit of K_{5/6}), and the two formulas satisfy "
+            "D = 2(B(0)-B(r)) to 2e-3 of the saturation value (lemma chain over algebraic powers of 2 and pi and enclosed Gamma constants); saturation "
+            "constant 2*0.0863 to 1e-3; Kolmogorov copies agree (6.88 / 6.8839), Yao expansion within [0.97,1.01] for r <= 1e-6 L; exact r0^(-5/3) scaling "
+            "of every copy; both screen generators take the square root of the same spectrum. NOT claimed: monotonicity, Hankel-transform relation, "
+            "positive semi-definiteness for arbitrary point sets (analytic facts about K_{5/6})",
+            "kv uninterpreted and positive; Gamma constants enclosed within 1e-12 of libm; D >= 0 assumed in the formula-consistency lemma."),
     "C09": ("4 C09", "ft/ift/ft2/ift2 and the real variants, as exported by the module and by the package, are inverse "
             "pairs, linear, satisfy Parseval, equal the centred DFT (origin at the centre sample) and obey the shift "
             "theorem for every complex input and every delta>0 at each listed size (1-D N<=5 quick / <=8 thorough, "
